@@ -8,11 +8,13 @@ import (
 	"crypto/x509"
 	"encoding/base64"
 	"encoding/json"
+	"math/big"
 	"net/url"
 	"strconv"
 	"strings"
 	"time"
 
+	"github.com/slackhq/nebula/cert"
 	"go.step.sm/crypto/jose"
 	"go.step.sm/crypto/randutil"
 	"golang.org/x/crypto/ssh"
@@ -159,6 +161,30 @@ func (w *World) mint(k *Case) (tok string, ok bool) {
 		sub = strconv.FormatUint(cert.Serial, 10)
 		cl["iss"] = p.Name
 		d.auds = []string{audURL(host, k.TokOp, p.tokenID())}
+	case "nebula":
+		ca, caKey := p.nebCA, p.nebCAKey
+		nb, na := now.Add(-time.Minute), now.Add(10*time.Minute)
+		if m, okm := hasMut(k, "neb"); okm {
+			switch m.S {
+			case "otherca":
+				ca, caKey = nebulaCA("other", now.Add(-time.Minute), now.Add(time.Hour))
+			case "expired":
+				nb, na = now.Add(-2*time.Hour), now.Add(-time.Hour)
+			case "future":
+				nb, na = now.Add(time.Hour), now.Add(2*time.Hour)
+			}
+		}
+		leaf, lk := nebulaLeaf(ca, caKey, "host.example.com", nb, na)
+		if m, okm := hasMut(k, "neb"); okm && m.S == "curve25519" {
+			leaf.Details.Curve = cert.Curve_CURVE25519 // after signing: the certificate lies about its curve
+		}
+		d.key = lk
+		d.hdr["nebula"] = must(leaf.Marshal())
+		if m, okm := hasMut(k, "neb"); okm && m.S == "ca-as-leaf" {
+			d.key, d.hdr["nebula"] = p.nebCAKey, must(p.nebCA.Marshal())
+		}
+		cl["iss"], cl["sans"] = p.Name, []string{sub}
+		d.auds = []string{audURL(host, k.TokOp, p.tokenID())}
 	case "oidc":
 		d.key, d.hdr["kid"] = p.jwk.Key, p.jwk.KeyID
 		sub = "user-1"
@@ -281,6 +307,10 @@ func (w *World) mint(k *Case) (tok string, ok bool) {
 				cl["step"] = map[string]any{"ssh": map[string]any{"certType": "router", "keyID": sub}}
 			case "add":
 				cl["step"] = map[string]any{"ssh": map[string]any{"certType": "USER", "keyID": sub, "principals": []string{sub}}}
+			case "host-ip":
+				cl["step"] = map[string]any{"ssh": map[string]any{"certType": "host", "keyID": sub, "principals": []string{sub, "10.1.0.7"}}}
+			case "host-evil":
+				cl["step"] = map[string]any{"ssh": map[string]any{"certType": "host", "keyID": sub, "principals": []string{"evil.example.com"}}}
 			case "empty":
 				cl["step"] = map[string]any{}
 			}
@@ -392,6 +422,16 @@ func (w *World) altLeaf(p *Prov, kind string) (*x509.Certificate, crypto.Signer)
 		return crt, csrKey
 	case "selfsigned":
 		return selfRoot("self")
+	case "nodigsig": // right root, client-auth, but no digitalSignature key usage
+		return leafFrom(p.root, p.rootKey, "x5c-client", x509.KeyUsageKeyEncipherment, []x509.ExtKeyUsage{x509.ExtKeyUsageClientAuth})
+	case "serverauth": // right root, digitalSignature, but server-auth only
+		return leafFrom(p.root, p.rootKey, "x5c-client", x509.KeyUsageDigitalSignature, []x509.ExtKeyUsage{x509.ExtKeyUsageServerAuth})
+	case "expiredleaf":
+		k := must(ecdsa.GenerateKey(elliptic.P256(), rand.Reader))
+		tpl := &x509.Certificate{SerialNumber: big.NewInt(7), Subject: p.leaf.Subject, NotBefore: time.Now().Add(-2 * time.Hour), NotAfter: time.Now().Add(-time.Hour),
+			KeyUsage: x509.KeyUsageDigitalSignature, ExtKeyUsage: []x509.ExtKeyUsage{x509.ExtKeyUsageClientAuth}}
+		der := must(x509.CreateCertificate(rand.Reader, tpl, p.root, k.Public(), p.rootKey))
+		return must(x509.ParseCertificate(der)), k
 	}
 	return p.leaf, p.leafKey
 }
@@ -406,7 +446,7 @@ func genMut(r *c.Rng, w *World, p *Prov, k *Case) Mut {
 		names[i] = q.Name
 	}
 	otherHosts := []string{"other-ca.test", w.hosts[0] + ":9000", strings.ToUpper(w.hosts[0]), "ca.verif.test.evil.test", w.hosts[len(w.hosts)-1], "[::1]:8443", "localhost"}
-	ids := []string{"acme/acme", "x5c/x5c", "x5c/x5c two", "sshpop/sshpop", "scep/scep", "jwk2:" + w.minter("jwk2").Kid, "client-abc", "k8ssa/k8sSA-default", "nope", "broken:" + w.minter("broken").Kid}
+	ids := []string{"acme/acme", "nebula/nebula", "x5c/x5c", "x5c/x5c two", "sshpop/sshpop", "scep/scep", "jwk2:" + w.minter("jwk2").Kid, "client-abc", "k8ssa/k8sSA-default", "nope", "broken:" + w.minter("broken").Kid}
 	switch r.Intn(22) {
 	case 0:
 		return Mut{K: "key", S: c.Pick(r, append(names, "random", "random"))}
@@ -443,10 +483,13 @@ func genMut(r *c.Rng, w *World, p *Prov, k *Case) Mut {
 		return Mut{K: "claim", S: c.Pick(r, []string{"azp=client-abc", "azp=other", "azp=jwk2:" + w.minter("jwk2").Kid, "tid=client-abc", "tid=t", "email=admin@example.com",
 			"email=ADMIN@EXAMPLE.COM", "email=x@evil.test", "email=", "azp=acme/acme"}), I: 0}
 	case 17:
-		return Mut{K: "step", S: c.Pick(r, []string{"del", "badtype", "add", "empty"})}
+		return Mut{K: "step", S: c.Pick(r, []string{"del", "badtype", "add", "empty", "host-ip", "host-evil"})}
 	case 18:
 		if p.Ty == "x5c" {
-			return Mut{K: "x5c", S: c.Pick(r, []string{"otherroot", "caleaf", "selfsigned"})}
+			return Mut{K: "x5c", S: c.Pick(r, []string{"otherroot", "caleaf", "selfsigned", "nodigsig", "serverauth", "expiredleaf"})}
+		}
+		if p.Ty == "nebula" {
+			return Mut{K: "neb", S: c.Pick(r, []string{"otherca", "expired", "future", "ca-as-leaf", "curve25519"})}
 		}
 		if p.Ty == "sshpop" {
 			return Mut{K: "pop", S: c.Pick(r, []string{"user", "usersignedbyhost", "expired", "future", "forever", "hugeafter", "edge", "selfsigned"})}
@@ -465,7 +508,7 @@ func genMut(r *c.Rng, w *World, p *Prov, k *Case) Mut {
 var natural = map[string][]string{
 	"jwk": {"sign", "sign", "sshsign", "revoke", "sshrevoke"}, "x5c": {"sign", "sign", "sshsign", "revoke"},
 	"sshpop": {"sshrenew", "sshrekey", "sshrevoke"}, "oidc": {"sign", "sshsign", "revoke"}, "k8ssa": {"sign", "sshsign", "revoke"},
-	"acme": {"sign", "revoke"}, "scep": {"sign"},
+	"acme": {"sign", "revoke"}, "scep": {"sign"}, "nebula": {"sign", "sshsign", "revoke", "sshrevoke"},
 }
 
 func genCase(r *c.Rng, worlds []*World) *Case {
@@ -512,7 +555,25 @@ func corner(worlds []*World) []*Case {
 		// a token of any provisioner re-addressed to the ACME provisioner's fragment
 		for _, m := range []string{"jwk", "removed", "x5c"} {
 			for _, op := range ops {
-				out = append(out, &Case{W: wi, M: m, TokOp: "sign", Op: op, Muts: []Mut{{K: "aud:frag", S: "acme/acme"}, {K: "key", S: "random"}}})
+				for _, id := range []string{"acme/acme", "scep/scep"} {
+					out = append(out, &Case{W: wi, M: m, TokOp: "sign", Op: op, Muts: []Mut{{K: "aud:frag", S: id}, {K: "key", S: "random"}}})
+					out = append(out, &Case{W: wi, M: m, TokOp: "sign", Op: op, Muts: []Mut{{K: "aud:raw", S: id}, {K: "alg", S: "none"}}})
+					out = append(out, &Case{W: wi, M: m, TokOp: "sign", Op: op, Muts: []Mut{{K: "aud:raw", S: "x"}, {K: "claim", S: "azp=" + id}}})
+					out = append(out, &Case{W: wi, M: m, TokOp: "sign", Op: op, Muts: []Mut{{K: "aud:raw", S: "x"}, {K: "claim", S: "tid=" + id}}})
+				}
+			}
+		}
+		for _, v := range []string{"otherroot", "caleaf", "selfsigned", "nodigsig", "serverauth", "expiredleaf"} {
+			for _, op := range []string{"sign", "sshsign", "revoke"} {
+				out = append(out, &Case{W: wi, M: "x5c", TokOp: op, Op: op, Muts: []Mut{{K: "x5c", S: v}}})
+			}
+		}
+		for _, v := range []string{"add", "badtype", "host-ip", "host-evil", "empty"} {
+			out = append(out, &Case{W: wi, M: "nebula", TokOp: "sshsign", Op: "sshsign", Muts: []Mut{{K: "step", S: v}}})
+		}
+		for _, v := range []string{"otherca", "expired", "future", "ca-as-leaf", "curve25519"} {
+			for _, op := range []string{"sign", "sshsign", "revoke", "sshrevoke"} {
+				out = append(out, &Case{W: wi, M: "nebula", TokOp: op, Op: op, Muts: []Mut{{K: "neb", S: v}}})
 			}
 		}
 		for _, v := range []string{"forever", "hugeafter", "expired", "future", "user", "selfsigned", "edge"} {
